@@ -26,6 +26,14 @@ const LOG_REAL: &[&str] = &[
     "sos_core binary encoding of events and records",
 ];
 
+const ACCT_REAL: &[&str] = &[
+    "sos_account::LocalAccount (account, sign-in/out, secrets, folders)",
+    "sos_client_storage::ClientStorage, sos_backend (Folder, BackendTarget, event logs, vault writers)",
+    "sos_vault (AccessPoint, Vault, secret encoding), sos_login identity folder and delegated folder passwords",
+    "sos_filesystem / sos_database storage on a real directory / real sqlite file",
+    "real KDFs (Argon2id, Balloon) and AEAD ciphers",
+];
+
 const COMMON_ASSUME: &[&str] = &[
     "sampling, not proof: a clean batch is evidence over the explored seeds only",
     "OS randomness and CLOCK_REALTIME are replaced by seeded streams through symbol interposition in the simulator binary; real kernel file system (tmpfs) and real bundled SQLite are used",
@@ -66,11 +74,27 @@ pub fn spec(id: &str) -> Option<PropSpec> {
             stub: &[],
             assumptions: COMMON_ASSUME,
         },
+        "C01" => PropSpec {
+            id: "C01",
+            family: "acct",
+            level: "exploration",
+            quick_runs: 320,
+            thorough_runs: 6000,
+            quick_wall_s: 170,
+            thorough_wall_s: 1700,
+            run_timeout_s: 120,
+            rule: "seeded histories of 12-70 account operations (create/update/move/delete/archive/unarchive over 15 secret kinds with user data and custom fields, empty and large values; folder create/rename/flags/description/delete; folder-level create with caller-chosen and re-used ids; sign-out/sign-in and restart at any position) on one device, backend = seed%2 in {filesystem, sqlite}, cipher = (seed/2)%2 in {AES-GCM, XChaCha20}; after EVERY step the served state (list_folders, list_secret_ids, read_secret, folder_description) is compared with the model, and again after a final restart; non-trivial = at least one mutating op succeeded; distinct = distinct (op kind, outcome class) sequence",
+            distinct_by_cases: false,
+            expected_probes: &[],
+            real: ACCT_REAL,
+            stub: &[],
+            assumptions: COMMON_ASSUME,
+        },
         _ => return None,
     };
     Some(s)
 }
 
 pub fn all_ids() -> Vec<&'static str> {
-    vec!["C06", "C07"]
+    vec!["C01", "C06", "C07"]
 }
